@@ -349,11 +349,13 @@ func (cb publicKeyCallback) auth(session []byte, user string, c packetConn, rand
 		signer := signers[idx]
 		pub := signer.PublicKey()
 		as, algo, err := pickSignatureAlgorithm(signer, extensions)
-		if err != nil && errSigAlgo == nil {
+		if err != nil {
 			// If we cannot negotiate a signature algorithm store the first
 			// error so we can return it to provide a more meaningful message if
 			// no other signers work.
-			errSigAlgo = err
+			if errSigAlgo == nil {
+				errSigAlgo = err
+			}
 			continue
 		}
 		ok, err := validateKey(pub, algo, user, c)
